@@ -30,4 +30,16 @@ def conditions(tier, seed):
     out.append(Cond('lexer_line_bookkeeping', 'c06_lines.py', {}, kind='script', timeout=900,
                     bound='every t_* rule of the OAL lexer: can its language contain a newline (z3, strings <= 12) and does the rule count it',
                     symbolic=['token text (z3 sequence theory)']))
+    # second, synthesised model (classes A/B/C/L, R1 simple, R2 reflexive, R3 linked, function F) with the interpreter's skeletons
+    # and a seeded generated program family; the population oracle of C06 runs on the instances prebuild created
+    q = tier == 'quick'
+    for sh in range(2):
+        out.append(Cond('synth_core_s%d' % sh, 'c05_gen.py', dict(family='core', shard=sh, nshards=2), func='check', timeout=t,
+                        bound='33 statement skeletons as the body of a function of a synthesised BridgePoint model (shard %d/2)' % sh,
+                        case_split=['program'], realised=['program text'], twin=(sh == 0)))
+    nsh = 2 if q else 16
+    for sh in range(nsh):
+        out.append(Cond('synth_gen_s%d' % sh, 'c05_gen.py', dict(family='gen', seed=seed + 1000, count=24 if q else 480, shard=sh, nshards=nsh), func='check', timeout=t,
+                        bound='%d generated programs (seed %d, nesting depth <= 3 per construct) on the synthesised model (shard %d/%d)' % (24 if q else 480, seed + 1000, sh, nsh),
+                        case_split=['program'], realised=['program text'], twin=False))
     return out
